@@ -311,7 +311,7 @@ func ruleS3(c *Ctx, id string) {
 
 func ruleS4(c *Ctx, id string) {
 	V, P, R := c.V, c.P, c.R
-	R.Rule(id, "a directory is unlinked only if it is empty: every path to the name removal passes 'object is not a directory' or IsDirEmpty(object) == true", 2)
+	R.Rule(id, "a directory is unlinked only if it is empty: every path to the name removal passes 'object is not a directory' or IsDirEmpty(object) == true", 3)
 	isEmpty := c.fn(id, "dir.IsDirEmpty")
 	remName := c.fn(id, "dir.RemName")
 	doRemove := c.fn(id, "nfs.(*Nfs).doRemove")
@@ -344,6 +344,38 @@ func ruleS4(c *Ctx, id string) {
 			return false, false
 		})
 		R.Check(everyPathTakes(fn, call.Block(), notDir, empty), id, key, P.Pos(call.Pos()), "every path to the removal passes Kind != NF3DIR of the object, or IsDirEmpty(object) == true", "no path avoids both edges", "a non-empty directory can be unlinked (through REMOVE, or RENAME over it): its whole subtree is orphaned")
+	}
+	// IsDirEmpty looks at every entry after "." and "..": its scan starts at 2*DIRENTSZ and advances by DIRENTSZ
+	{
+		direntsz := constOfPkg(P, "dir", "DIRENTSZ")
+		okStart, okStep := false, true
+		nback := 0
+		for _, b := range isEmpty.Blocks {
+			for _, in := range b.Instrs {
+				phi, ok := in.(*ssa.Phi)
+				if !ok || phi != stepPhi(isEmpty, direntsz) {
+					continue
+				}
+				for i, e := range phi.Edges {
+					if !phi.Block().Dominates(phi.Block().Preds[i]) {
+						if k, isk := constInt(e); isk && k == 2*direntsz {
+							okStart = true
+						}
+						continue
+					}
+					nback++
+					add, isA := e.(*ssa.BinOp)
+					if !isA || add.Op != token.ADD || add.X != ssa.Value(phi) {
+						okStep = false
+						continue
+					}
+					if k, isk := constInt(add.Y); !isk || k != direntsz {
+						okStep = false
+					}
+				}
+			}
+		}
+		R.Check(okStart && okStep && nback > 0, id, "dir.IsDirEmpty|scans every entry after . and ..", P.Pos(isEmpty.Pos()), "the emptiness scan starts at offset 2*DIRENTSZ and advances by DIRENTSZ", "constants agree", "the emptiness test skips real entries (or stops short): a directory with entries is taken for empty and unlinked")
 	}
 	for _, rc := range P.CallsIn(doRemove, funcIs(remName)) {
 		// object = inodes[0]
